@@ -10,7 +10,7 @@ STUBS_COMMON = [
 ]
 
 ARENA_BOUNDS = [
-    "arena: stations s0@A (LEVEL_2, DCFC, gas_pump), s1@B (LEVEL_2, serves base b0); bases b0@B, b1@E; requests r0 C->D, r1 C->F; haversine road network",
+    "arena: stations s0@A (LEVEL_2, DCFC, gas_pump), s1@B (LEVEL_2, serves base b0); bases b0@B (served by s1), b1@E (no station), b2@F (served by the remote station s0@A); requests r0 C->D, r1 C->F; haversine road network",
     "counters (installed / ghost-occupied / ghost-queued plugs, stalls) are unbounded symbolic ints; ghosts stand for any number of unmodelled vehicles",
 ]
 
@@ -28,7 +28,7 @@ def t_instr_conds(oracle, tier, timeout=150, fn="t_instr", kinds=None):
                     env={"VF_ORACLE": oracle},
                     label=f"T-instr[{M.KIND_NAMES[kind]}<-{M.INSTR_NAMES[ik]}]",
                     weight=(4 if kind in (9, 12) else 3 if kind == 7 else 2 if kind in (3, 4) else 1)
-                    * (3 if ik in (2, 3, 4, 9, 10, 14) else 1),
+                    * (3 if ik in (2, 3, 4, 9, 10, 14, 16) else 1),
                 )
             )
     # reachability twins: one per previous activity
